@@ -321,6 +321,21 @@ func genDeframe(out *sink, rnd *rand.Rand, thorough bool) {
 			}
 		}
 	}
+	// several faults in one header: marker, then length, then type decides
+	for _, pos := range []int{0, 7, 15} {
+		m := append([]byte{}, ff...)
+		m[pos] = 0x01
+		for _, l := range []int{0, 18, 19, 4096, 4097, 65535} {
+			for _, t := range []byte{0, 4, 9, 255} {
+				emit(append(hdr(m, l, t), ka...))
+			}
+		}
+	}
+	for _, l := range []int{0, 1, 18, 4097, 65535} {
+		for _, t := range []byte{0, 5, 9, 255} {
+			emit(append(hdr(ff, l, t), ka...))
+		}
+	}
 	lengths := []int{0, 1, 18, 19, 20, 28, 29, 4095, 4096, 4097, 65535}
 	types := []int{0, 1, 2, 3, 4, 5, 6, 255}
 	if thorough {
